@@ -59,6 +59,28 @@ pub fn build_input(with_names: bool, prod: usize, dwarf: bool) -> Vec<u8> {
     m.build()
 }
 
+/// inputs without (live) code that carry data-only DWARF, a producers section and a name section:
+/// "nocode" has no function at all, "deadcode" one function nothing reaches (run with gc)
+pub fn build_codeless(shape: &str) -> Vec<u8> {
+    let mut m = mb::MB::default();
+    m.mems.push(mb::Lim::new(1, None));
+    m.globals.push((mb::I32, true, mb::expr(mb::i32_const(5))));
+    m.export("m", 2, 0);
+    m.export("g", 3, 0);
+    m.datas.push(mb::data_seg(0, 0, &mb::i32_const(0), b"dd"));
+    if shape == "deadcode" {
+        let t0 = m.ty(&[], &[]);
+        m.func(t0, vec![], vec![0x01, mb::END]);
+    }
+    m.customs.push((12, "name".into(), mb::name_section(&[(0, { let mut o = vec![]; mb::name("codeless", &mut o); o }), (7, mb::name_map(&[(0, "the_global")]))])));
+    m.customs.push((12, "producers".into(), mb::producers(producers_variants()[1].1.as_ref().unwrap())));
+    for (n, d) in wdwarf::data_only_sections() {
+        m.customs.push((12, n, d));
+    }
+    m.customs.push((5, "keepme".into(), vec![1, 2, 3]));
+    m.build()
+}
+
 fn expected_producers(input: &Option<Producers>, version: &str) -> Producers {
     let mut f: Producers = input.clone().unwrap_or_default();
     let mut done = false;
@@ -99,10 +121,11 @@ pub fn check_case(c: &Case, version: &str) -> CaseResult {
         Ok(a) => a,
         Err(_) => return r,
     };
+    let with_gc = c.cfg.get("gc").and_then(|x| x.as_bool()).unwrap_or(false);
     let rt = |bytes: &[u8], cfg: &Cfg, n: usize| -> Result<Vec<u8>, Fail> {
         let mut cur = bytes.to_vec();
         for _ in 0..n {
-            cur = roundtrip(&cur, cfg, false)?;
+            cur = roundtrip(&cur, cfg, with_gc)?;
         }
         Ok(cur)
     };
@@ -454,8 +477,22 @@ pub fn run(args: &Args) -> i32 {
             }
         }
     }
+    // modules without (live) code: the sections walrus generates itself must not depend on a code section
+    for (shape, gc) in [("nocode", false), ("deadcode", true), ("deadcode", false)] {
+        let wasm = build_codeless(shape);
+        for bits in 0..64u32 {
+            let cfg = Cfg { names: bits & 1 != 0, producers: bits & 2 != 0, dwarf: bits & 4 != 0, preserve_ct: bits & 8 != 0, stable: bits & 16 != 0, synthetic: bits & 32 != 0 };
+            for trips in 1..=2usize {
+                let mut j = cfg.json();
+                j["trips"] = json!(trips);
+                j["dwarf_input"] = json!(true);
+                j["gc"] = json!(gc);
+                cases.push(Case { family: "config".into(), coords: format!("codeless={} gc={} switches={:06b} trips={}", shape, gc, bits, trips), wasm: wasm.clone(), cfg: j });
+            }
+        }
+    }
     ev.rule = "all 2^6 combinations of {name section, producers, DWARF, code-transform preservation, only-stable, synthetic names} x inputs {with/without name section} x \
-        {5 producers variants} x {with/without DWARF} x {1,2,3} round trips; section inventory + producers content + 'flipping one switch changes only its own section' (byte comparison of raw sections); \
+        {5 producers variants} x {with/without DWARF} x {1,2,3} round trips, plus three code-less shapes (no function at all; one dead function, with and without gc) carrying data-only DWARF; section inventory + producers content + 'flipping one switch changes only its own section' (byte comparison of raw sections); \
         plus the configuration builder as a state machine: every sequence of setter calls (8 setters, 15 actions) up to length 3 (quick) / 4 (thorough) on two inputs, model = last write wins \
         (generate_dwarf(true) implies code-transform preservation), oracle = output byte-identical to the output under the canonical configuration of the model state, same accept/reject, callback count; \
         plus the parse callback counted on every prefix and 7 substitutions per byte of two seeds. non-trivial = every accepted case (each is a distinct configuration/input pair)"
